@@ -238,6 +238,8 @@ func (w *W) sliceElems(s *Slice, elem types.Type) []Value {
 
 var anyType = types.NewInterfaceType(nil, nil)
 
+func (w *W) errIfaceType() types.Type { return types.Universe.Lookup("error").Type() }
+
 func (w *W) now(exec *Term) *Term {
 	w.clockN++
 	c := Var(fmt.Sprintf("clk_%d", w.clockN), 64)
@@ -582,7 +584,25 @@ func (w *W) intrinsic(f *frame, fn *ssa.Function, args []Value, key int, g *Term
 	case "errors.Is":
 		r = w.errIs(args[0], args[1], 0)
 	case "errors.Join":
-		panic("cannot encode: errors.Join")
+		// nil if every operand is nil, otherwise a new error wrapping the non-nil ones
+		elems := w.sliceElems(args[0].(*Slice), w.errIfaceType())
+		anyNonNil := False
+		var ws []Value
+		for _, e := range elems {
+			iv := e.(*Iface)
+			nn := False
+			for _, a := range iv.alts {
+				if a.typ != nil {
+					nn = Or(nn, a.g)
+				}
+			}
+			anyNonNil = Or(anyNonNil, nn)
+			ws = append(ws, iv)
+		}
+		o := w.errObj(fmt.Sprintf("errors.Join#%d:%d", t.id, key))
+		o.name = "errors.Join@" + w.pos(pos)
+		errWraps[o] = ws
+		r = merge(anyNonNil, mkIface(w.errType(), onePtr(mkLoc(o, ""))), nilIface())
 	case "fmt.Errorf":
 		o := w.errObj(fmt.Sprintf("fmt.Errorf#%d:%d", t.id, key))
 		fs, _ := constString(c.Args[0])
